@@ -338,8 +338,8 @@ func genC08(cs *CaseSet, rng *Rng, tier string, dir string) {
 				ia := iforkArgs(rng)
 				ia[10] = []byte(name)
 				ia[9] = be16(len(name))
-				if rng.Bool() {
-					ia[12] = []byte("a comment")
+				if rng.Intn(3) != 0 {
+					ia[12] = dataBytes(rng, rng.Pick(1, 9, 200, 381, 382, 383, 600, 3000))
 					ia[11] = be16(len(ia[12]))
 				} else {
 					ia[12], ia[11] = nil, []byte{0, 0}
@@ -394,8 +394,35 @@ func genC08(cs *CaseSet, rng *Rng, tier string, dir string) {
 			}
 			cs.Add(Case{Kind: fmt.Sprintf("download-info%v-rsrc%v-preview%v-resume%v", hasInfo, hasRsrc, preview, resuming),
 				Ops: []Op{mkOp(10, "download", []byte(name), data, be32(off), b1(resuming), b1(preview), b1(hasInfo), info, b1(hasRsrc), rsrc, typ, creator, mtime)},
-				Obs: [][][]byte{{xfer, fsz, stream}},
+				Obs: [][][]byte{append([][]byte{xfer, fsz}, splitDownload(stream, preview, fsz)...)},
 				NonTrivial: size > 0 && (off > 0 || hasInfo || hasRsrc || len(name) > 1 || preview)})
 		}
 	}
+}
+
+
+// splitDownload cuts a download stream the way a client does: the flattened file header up to the data fork
+// (its length comes from the header's own INFO-fork size field), then as many data bytes as the reply's file
+// size field announced, then whatever follows.
+func splitDownload(stream []byte, preview bool, fsz []byte) [][]byte {
+	n := 0
+	if len(fsz) == 4 {
+		n = int(fsz[0])<<24 | int(fsz[1])<<16 | int(fsz[2])<<8 | int(fsz[3])
+	}
+	head := 0
+	if !preview {
+		if len(stream) < 40 {
+			return [][]byte{stream, nil, nil}
+		}
+		isz := int(stream[36])<<24 | int(stream[37])<<16 | int(stream[38])<<8 | int(stream[39])
+		head = 40 + isz + 16
+		if head > len(stream) || head < 0 {
+			return [][]byte{stream, nil, nil}
+		}
+	}
+	end := head + n
+	if end > len(stream) {
+		end = len(stream)
+	}
+	return [][]byte{stream[:head], stream[head:end], stream[end:]}
 }
